@@ -172,14 +172,39 @@ where
         outside.push(s + (1usize << 32));
         outside.push(s + (1usize << P));
     }
+    // in-support values with one or several arbitrary higher bits set (any bit position from
+    // PRECISION up to the top of usize): every window of bits a range check might look at
+    for _ in 0..12 {
+        let s = inside[rng.below(inside.len() as u64) as usize];
+        let b1 = rng.usize_in(P.min(63), 63);
+        let mut v = s | 1usize << b1;
+        if rng.bool() {
+            v |= 1usize << rng.usize_in(P.min(63), 63);
+        }
+        if rng.chance(1, 4) {
+            v |= (rng.u64() as usize) << P.min(63);
+        }
+        outside.push(v);
+    }
     outside.retain(|&s| s >= range);
     run.count("aliasing_symbols_generated", outside.len() as u64);
     run.nontrivial();
     let desc = format!("UniformModel::<{},{}>::new({range})", Pr::NAME, P);
     run.note(|| desc.clone());
-    if history::<_, _, P>(run, rng, &m, &m, &inside, &outside, &desc) {
-        run.describe(|| desc);
+    if !history::<_, _, P>(run, rng, &m, &m, &inside, &outside, &desc) {
+        return;
     }
+    // the generic encoder / decoder models converted from it reject the same symbols
+    if range <= 600 {
+        let ge = m.to_generic_encoder_model();
+        let gd = m.to_generic_decoder_model();
+        let desc2 = format!("{desc}.to_generic_encoder_model() / to_generic_decoder_model()");
+        if !history::<_, _, P>(run, rng, &ge, &gd, &inside, &outside, &desc2) {
+            return;
+        }
+        run.count("generic_conversions_probed", 1);
+    }
+    run.describe(|| desc);
 }
 
 fn categorical_case<Pr, const P: usize>(run: &mut Run, rng: &mut Rng)
